@@ -139,6 +139,8 @@ def generate(rng, tier):
         "knob": rng.choice([None, None, 1024, 4096, 16384]),
         # a second call that re-uses the very same Layer/Array objects with another call-level operation
         "second_op": rng.choice([None, None, "sum", "mean"]),
+        # an earlier call on the same objects with other contents; the caller refills the buffers in place
+        "prior": rng.random() < 0.2,
     }
     return case
 
@@ -172,12 +174,17 @@ def call_frontend(case, sim_factory, reuse=None, call_op="__case__"):
                 plot = osyris.histogram2d(x, y, *layers, **kw)
         return plot, seam.calls
 
-    x = osyris.Array(values=np.array(case["x"]["pts"], dtype=float), unit=case["xunit"], name="xq")
-    y = osyris.Array(values=np.array(case["y"]["pts"], dtype=float), unit="", name="yq")
+    prior = bool(case.get("prior")) and case["n"] > 0
+    xv = np.array(case["x"]["pts"], dtype=float)
+    yv = np.array(case["y"]["pts"], dtype=float)
+    x = osyris.Array(values=xv[::-1].copy() if prior else xv, unit=case["xunit"], name="xq")
+    y = osyris.Array(values=yv.copy() if prior else yv, unit="", name="yq")
     layers = []
     datas = []
     for i, l in enumerate(case["layers"]):
         v = np.array(l["values"], dtype=float)
+        if prior:
+            v = 2.0 * v + 1.0
         if l.get("same_as") is not None and l["same_as"] < len(datas):
             data = datas[l["same_as"]]  # the same object
         elif l.get("vector"):
@@ -188,6 +195,22 @@ def call_frontend(case, sim_factory, reuse=None, call_op="__case__"):
         # bare Arrays are accepted as layers; Vectors only inside a Layer
         layers.append(osyris.core.Layer(data, operation=l["op"]) if (l["op"] is not None or i % 2 or l.get("vector")) else data)
     kw = frontend_kwargs(case, case["call_op"] if call_op == "__case__" else call_op)
+    if prior:
+        # an earlier (unjudged) call on the same objects, which the caller then refills in place with the data of this case
+        with Seam(MODNAME, KATTR, lambda: Sim(T=1)):
+            with np.errstate(all="ignore"):
+                try:
+                    osyris.histogram2d(x, y, *layers, **kw)
+                except Exception:
+                    pass
+        x.values[...] = xv
+        y.values[...] = yv
+        done = set()
+        for l, data in zip(case["layers"], datas):
+            if id(data) in done:
+                continue
+            done.add(id(data))
+            (data.x if l.get("vector") else data).values[...] = np.array(l["values"], dtype=float)
     with Seam(MODNAME, KATTR, sim_factory, knob_scale=case.get("knob")) as seam:
         with np.errstate(all="ignore"):
             plot = osyris.histogram2d(x, y, *layers, **kw)
@@ -615,7 +638,7 @@ def measure(case):
     sw = sum(1 for a, b in zip(dec, dec[1:]) if a != b) if dec else 10**6
     part = {"static-equal": 0, "static-uneven": 1, "dynamic": 2}[case["sched"]["partition"]["kind"]]
     nonfin = sum(1 for v in case["x"]["pts"] + case["y"]["pts"] if not math.isfinite(v))
-    return (case["n"], len(case["layers"]), case["sched"]["T"], part, case["res"], nonfin, int(bool(case.get("knob"))), int(case.get("second_op") is not None), sw, len(dec) if dec else 10**6)
+    return (case["n"], len(case["layers"]), case["sched"]["T"], part, case["res"], nonfin, int(bool(case.get("knob"))), int(case.get("second_op") is not None) + int(bool(case.get("prior"))), sw, len(dec) if dec else 10**6)
 
 
 def canonical(case, viol):
@@ -687,6 +710,8 @@ def reductions(case, viol):
         yield dict(case, knob=None)
     if case.get("second_op") is not None:
         yield dict(case, second_op=None)
+    if case.get("prior"):
+        yield dict(case, prior=False)
     # 4. non-finite entries -> finite
     for a in ("x", "y"):
         for i, v in enumerate(case[a]["pts"]):
